@@ -1,3 +1,11 @@
 #!/bin/bash
-# independent re-check of every compiled property file (and everything it depends on) with coqchk; prints the context summary
-cd /verif/coq && timeout 3000 coqchk -Q . Verif -o $(ls Props/*.v | sed 's|Props/\(.*\)\.v|Verif.Props.\1|') 2>&1 | sed -n '/CONTEXT SUMMARY/,$p'
+# independent re-check of every compiled property file (and everything it depends on) with coqchk; prints the context summary.
+# The .vo files are rebuilt first (a check that ran against a modified /repo may have left generated tables behind).
+cd /verif && python3 -c "
+import sys; sys.path.insert(0, '/verif')
+from harness.translators import generate_all
+generate_all()" >/dev/null 2>&1
+cd /verif/coq && timeout 1800 make -j8 >/dev/null 2>&1 || { echo "coqchk.sh: the build failed"; exit 1; }
+out=$(timeout 3000 coqchk -silent -Q . Verif -o $(ls Props/*.v | sed 's|Props/\(.*\)\.v|Verif.Props.\1|') 2>&1)
+echo "$out" | grep -a "Fatal\|Error" && exit 1
+echo "$out" | sed -n '/CONTEXT SUMMARY/,$p'
